@@ -26,4 +26,20 @@ theorem crs_seed : str Gen.crsSeed = crsSeed := by decide +kernel
 
 theorem coordinate_size : Gen.coordinateSizeExpr = "fp.Limbs * 8" := by decide
 
+/-- the glue functions that are not translated — `NewIPASettings` (SRS = `GenerateRandomPoints(256)`, `Q` = the
+generator, tables = `NewPrecompMSM(srs)`, weights, rounds), `MultiScalar` (identity receiver, `MultiExp` with
+Montgomery scalars and `NumCPU` tasks), `Commit` (= the precomputed-table MSM), `computeNumRounds`,
+`GenerateRandomPoints` (the try-and-increment loop the model's `genPointsAux` mirrors), banderwagon's `MultiExp`
+wrapper (projective copies → `batchProjToAffine` → `bandersnatch.MultiExp`) and `NewPrecompMSM` — have exactly
+these statements; any edit of them is a broken obligation. -/
+theorem glue_bodies :
+    Gen.glueNewIPASettings = ["srs := GenerateRandomPoints(common.VectorLength)", "precompMSM, err := banderwagon.NewPrecompMSM(srs)", "if err != nil { return nil, fmt.Errorf(\"creating precomputed MSM: %s\", err) }", "return &IPAConfig{ SRS: srs, Q: banderwagon.Generator, PrecompMSM: precompMSM, PrecomputedWeights: NewPrecomputedWeights(), numRounds: computeNumRounds(common.VectorLength), }, nil"] ∧
+    Gen.glueMultiScalar = ["var result banderwagon.Element", "result.SetIdentity()", "res, err := result.MultiExp(points, scalars, banderwagon.MultiExpConfig{NbTasks: runtime.NumCPU(), ScalarsMont: true})", "if err != nil { return banderwagon.Element{}, fmt.Errorf(\"mult exponentiation was not successful: %w\", err) }", "return *res, nil"] ∧
+    Gen.glueCommit = ["return ic.PrecompMSM.MSM(polynomial)"] ∧
+    Gen.glueComputeNumRounds = ["if vectorSize == 0 { panic(\"zero is not a valid input\") }", "isPow2 := (vectorSize & (vectorSize - 1)) == 0", "if !isPow2 { panic(\"non power of 2 numbers are not valid inputs\") }", "res := math.Log2(float64(vectorSize))", "return uint32(res)"] ∧
+    Gen.glueGenerateRandomPoints = ["seed := \"eth_verkle_oct_2021\"", "points := []banderwagon.Element{}", "var increment uint64 = 0", "for uint64(len(points)) != numPoints { digest := sha256.New() digest.Write([]byte(seed)) b := make([]byte, 8) binary.BigEndian.PutUint64(b, increment) digest.Write(b) hash := digest.Sum(nil) var x fp.Element x.SetBytes(hash) increment++ x_as_bytes := x.Bytes() var point_found banderwagon.Element err := point_found.SetBytes(x_as_bytes[:]) if err != nil { continue } points = append(points, point_found) }", "return points"] ∧
+    Gen.glueBanderwagonMultiExp = ["var projPoints = make([]bandersnatch.PointProj, len(points))", "for i := range points { projPoints[i] = points[i].inner }", "affinePoints := batchProjToAffine(projPoints)", "_, err := bandersnatch.MultiExp(&p.inner, affinePoints, scalars, bandersnatch.MultiExpConfig{ NbTasks: config.NbTasks, ScalarsMont: config.ScalarsMont, })", "return p, err"] ∧
+    Gen.glueNewPrecompMSM = ["if len(points) != supportedMSMLength { return MSMPrecomp{}, fmt.Errorf(\"the number of points must be %d\", supportedMSMLength) }", "var err error", "var precompPoints [supportedMSMLength]PrecompPoint", "for i := 0; i < supportedMSMLength; i++ { windowSize := 8 if i < window16vs8IndexLimit { windowSize = 16 } precompPoints[i], err = NewPrecompPoint(points[i], windowSize) if err != nil { return MSMPrecomp{}, fmt.Errorf(\"creating precomputed table for point: %s\", err) } }", "return MSMPrecomp{ precompPoints: precompPoints, }, nil"] :=
+  ⟨rfl, rfl, rfl, rfl, rfl, rfl, rfl⟩
+
 end GoIpa.Tie.Consts
